@@ -70,6 +70,10 @@ def main():
     pid = meta["property"]
     checks = a.checks.split(",") if a.checks else [pid]
     name = os.path.basename(os.path.dirname(seed)) + "-" + os.path.basename(seed) if seed.startswith("/tmp/") else os.path.basename(seed)
+    # a change seeded for one property may be observable only where another property's check looks (e.g. the CLI reader)
+    extra_p = os.path.join(ROOT, "seeded", "EXTRA_CHECKS.json")
+    if not a.checks and os.path.exists(extra_p):
+        checks += [c for c in json.load(open(extra_p)).get(name, []) if c not in checks]
     wt = "/tmp/sv-%s-%d" % (name, os.getpid())
     res = {"seed": seed, "property": pid, "worktree": wt}
     subprocess.run(["git", "-C", "/repo", "worktree", "remove", "--force", wt], stdout=subprocess.DEVNULL, stderr=subprocess.DEVNULL)
